@@ -13,8 +13,7 @@ import common
 PROP = "C16"
 HEADER = ("From Coq Require Import ZArith List.\nImport ListNotations.\n"
           "From IBL.C16 Require Import Run.")
-# "Axioms" is the header line of Print Assumptions' output, which common.print_assumptions' regex also captures
-WHITELIST = sorted(common.STDLIB_AXIOMS) + ["Axioms"]
+WHITELIST = sorted(common.STDLIB_AXIOMS)
 TRUSTED = [
     "Coq 8.16.1 kernel + vm_compute (no native_compute); Flocq 4.1 BinarySingleNaN as the meaning of "
     "IEEE-754 binary32/binary64 round-to-nearest-even operations",
@@ -503,7 +502,7 @@ def gen_special(rng):
 def gen_cases(ctx):
     rng = ctx.rng
     cases = gen_special(rng)
-    n = 5 if ctx.thorough() else 1
+    n = 20 if ctx.thorough() else 1
     windows = list(range(1, 13))
     for rep in range(60 * n):
         for g in (gen_voltage_lattice, gen_slew_lattice, gen_random):
